@@ -109,7 +109,7 @@ Record state := {
 Definition init : state :=
   {| blobs := []; idx := []; gnodes := []; strays := []; autogc := true |}.
 
-Inductive res := Ok | ENotFound | EExists | EHang | ECanceled.
+Inductive res := Ok | ENotFound | EExists | EHang | ECanceled | EOther.
 
 (* fixF1/F3/F4/F13: the repairs of DESIGN section 6; fixStale: resolver.Memory.Tag forgets a
    moved reference in the old tag set; fixLeaf: Delete does not queue dangling leaves that
@@ -480,7 +480,8 @@ Inductive pop :=
 | PO (o : op)                       (* an operation of the store *)
 | PSave                             (* Store.SaveIndex *)
 | PAutoSave (b : bool)              (* Store.AutoSaveIndex = b *)
-| PGCCancel (early : bool) (order : list sentry) (k : nat).
+| PGCCancel (early : bool) (order : list sentry) (k : nat)
+| PPushBad (n : nat).               (* Push of a manifest-typed blob that does not decode *)
   (* GC with a context that is cancelled: before the index is rebuilt ([early]) or in the
      sweep after [k] entries of [order] *)
 
@@ -532,6 +533,8 @@ Definition pstep (c : cfg) (kl : bool) (p : pstate) (o : pop) : pstate * res :=
     let '(m, r) := step c kl (mem p) o' in (saved false p m, r)
   | PSave => (saved true p (mem p), Ok)
   | PAutoSave b => ({| mem := mem p; disk := disk p; autosave := b |}, Ok)
+  (* storage.Push succeeds, graph.Index fails, the blob is removed again: nothing changes *)
+  | PPushBad _ => (p, EOther)
   | PGCCancel true _ _ => (p, ECanceled)
   | PGCCancel false order k =>
     let '(m, r) := gc_cancel c kl (fun _ => candidates (idx (mem p))) order k (mem p) in
